@@ -212,10 +212,11 @@ def asgiHeader (lit : Str) (hs : List (Str × Str)) : Str :=
 /-- No method or path dispatch.  The answer is sent when `receive()` yields an `http.request` message, which is what the
 model assumes.  All headers of `_bake_output` are forwarded (encoded to bytes).
 
-`parse_qs` is called FIRST and on the `bytes` query string; for `bytes` input the standard library decodes as ASCII,
-unquotes, and re-encodes as ASCII, so it raises `UnicodeEncodeError` / `UnicodeDecodeError` when a percent-escape or a
-raw byte is not ASCII (`parseQsB q = .error .unicodeError`); the exception leaves the coroutine.
-`decodeQ` only matters when the source decodes the query string before `parse_qs` (`asgiQueryDecoded`). -/
+The query string is decoded (`.decode('latin-1')`, `decodeQ`) and `parse_qs` runs on the `str`, as in the other two
+front-ends (`asgiQueryDecoded = true`).  The other branch is what the source did before that repair: `parse_qs` on the
+`bytes` query string, which yields `bytes` keys (so `'name[]' in params` is never true) and raises
+`UnicodeEncodeError` / `UnicodeDecodeError` on non-ASCII escapes or bytes (`parseQsB q = .error .unicodeError`); it is
+kept so that a regression changes the model's behaviour rather than breaking the extraction. -/
 def asgiParams (parseQs : Str → List (Str × List Str)) (parseQsB : Bytes → PyM (List (Bytes × List Bytes)))
     (decodeQ : Bytes → PyM Str) (q : Bytes) : PyM Params :=
   if asgiQueryDecoded then (decodeQ q).map fun s => strParams (parseQs s)
